@@ -87,12 +87,16 @@ class CreateSubscription(Obligation):
     desc = 'SubscriptionManager::create_subscription abandoned at any await: no half-created subscription (registered but not handed to its topic)'
     bounds = {'pending_answers': 2, 'existing_subscriptions': 1}
 
-    def __init__(self, ctx):
+    def __init__(self, ctx, abandon=True):
         install_tokens(ctx)
         ctx.on_enqueue = default_reply
+        self.abandon = abandon
+        if not abandon:
+            self.desc = 'SubscriptionManager::create_subscription run to completion: project mismatch -> error before any effect; name taken -> AlreadyExists, nothing created; else insert under the lock, attach to its topic, Ok after the reply'
 
     def body(self, ip, p):
         ctx = ip.ctx
+        ctx.on_enqueue = default_reply
         U = ctx.tok_ufs
         topic_tok = p.fresh('topic_tok')
         # one existing subscription slot
@@ -125,8 +129,8 @@ class CreateSubscription(Obligation):
             enq = any(e[0] == 'enqueue' for e in m)
             held = [e for e in log if e[0] in ('lock', 'unlock')]
             out.append(Claim('suspension %d: no lock held across the await' % (i + 1), len(held) % 2 == 0))
-            c = Claim('half-created', (not inserted) or enq)
-            out.append(c)
+            if self.abandon:
+                out.append(Claim('half-created', (not inserted) or enq))
         r = res['res']
         m = mutating(res['log'])
         if r.discr == 0:
